@@ -38,6 +38,19 @@ var Check = &ev.Check{
 		"Oracle: identical success/failure, identical path->sha256 map of the output tree, identical plugin request after renumbering ids by (thrift path, service name). distinct_nontrivial = (program, options) pairs whose exploration had at least 2 executions.",
 	Run:    run,
 	Finish: finish,
+	Prepare: func(s *ev.S) error {
+		// the real thriftrw command, built with the same range rewrite and the vmap
+		// environment hook (hooks/verifshim/vmap/env.go), for the CLI family
+		bin := filepath.Join(s.WorkDir, "thriftrw-vmap")
+		cmd := exec.Command("go", "build", "-tags", "verif", "-overlay", filepath.Join(s.Verif, "bin", "overlay-C10.json"), "-o", bin, "go.uber.org/thriftrw")
+		cmd.Dir = s.Verif
+		cmd.Env = append(os.Environ(), "GOFLAGS=-mod=mod")
+		if out, err := cmd.CombinedOutput(); err != nil {
+			return fmt.Errorf("building thriftrw with the range rewrite: %v: %s", err, out)
+		}
+		s.Args["thriftrw"] = bin
+		return nil
+	},
 	Cleanup: func(*ev.S) {
 		if ds, _ := filepath.Glob(fmt.Sprintf("/dev/shm/verif-C10-%d-*", os.Getpid())); len(ds) > 0 {
 			for _, d := range ds {
@@ -218,6 +231,17 @@ func programs() []program {
 		"a.thrift":    "struct P { 1: optional string error; 2: optional string methodName; 3: optional string envelopeType; 4: optional string errorName }\n",
 		"b.thrift":    "exception X { 1: optional string msg }\nservice S { void f(1: string a) throws (1: X x) }\n",
 		"c.thrift":    "struct Q { 1: optional string error_name; 2: optional string method_name; 3: optional i32 envelope_type }\nunion U { 1: string error }\n",
+	}})
+	// 9. struct constants (and struct-typed defaults, nested literals) that set several
+	// optional fields of distinct enum / typedef-of-primitive types: every such field needs a
+	// helper of its own that is declared when first used
+	ps = append(ps, program{Name: "struct-constant-pointer-helpers", Root: "root.thrift", Small: true, Files: map[string]string{
+		"root.thrift": "include \"./t.thrift\"\nenum E1 { A, B }\nenum E2 { C, D }\nenum E3 { F, G }\ntypedef i32 T1\ntypedef string T2\ntypedef double T3\ntypedef i8 T4\n" +
+			"struct S { 1: optional E1 a; 2: optional E2 b; 3: optional T1 c; 4: optional T2 d; 5: optional t.X e; 6: optional t.TX f; 7: optional E3 g; 8: optional T3 h; 9: optional bool i; 10: optional i64 j; 11: optional T4 k }\n" +
+			"struct N { 1: optional S s = {\"g\": 1, \"h\": 2.5, \"a\": 0}; 2: optional list<S> l = [{\"d\": \"x\", \"c\": 7}] }\n" +
+			"const S K = {\"a\": 1, \"b\": 0, \"c\": 5, \"d\": \"s\", \"e\": 1, \"f\": 9, \"i\": true, \"j\": 6, \"k\": 3}\n" +
+			"const map<string, S> M = {\"k\": {\"f\": 3, \"e\": 0, \"b\": 1}}\n",
+		"t.thrift": "enum X { P, Q }\ntypedef i16 TX\n",
 	}})
 	return ps
 }
@@ -535,6 +559,10 @@ func run(w *ev.W) {
 					p.Name, o.name, len(distinct), strings.Join(descr, " "), diffLines(base, other)),
 					map[string]interface{}{"program": p, "options": o.name, "orders": distinct})
 			}
+			if baseClass == "COMPILE-ERROR" && w.Shard == 0 {
+				w.Note("HARNESS: collision program " + p.Name + " does not compile (" + o.name + "): it contributes nothing")
+				w.Cap("collision program " + p.Name + " does not compile")
+			}
 			if strings.HasPrefix(baseClass, "PANIC") {
 				w.Violation("panic:"+p.Name, base, map[string]interface{}{"program": p, "options": o.name})
 			}
@@ -671,6 +699,12 @@ func run(w *ev.W) {
 				p.Name, strings.SplitN(inproc, "\n", 2)[0], strings.Join(descr, " "), diffLines(inproc, other)), map[string]interface{}{"program": p})
 		}
 	}
+	// CLI family: the real thriftrw command (built with the range rewrite) WITHOUT
+	// --thrift-root, so that it infers the root from the files involved (main.go), on
+	// directory layouts with sibling directories whose names are prefixes of one another;
+	// one process per execution, every map order with <=1 deviating execution.
+	r := cliFamily(w, out)
+	_ = r
 	// family B: the systematic program family of C07 (every reference graph of <=3
 	// definitions over 5 kinds in 7 layouts), restricted to programs the reference
 	// resolver deems valid; default options; every map order with <=1 deviating execution
@@ -801,4 +835,134 @@ func run(w *ev.W) {
 		sort.Strings(sites)
 		w.Note("map-range sites reached by the last execution: " + strings.Join(sites, " "))
 	}
+}
+
+type cliLayout struct {
+	name  string
+	root  string
+	files map[string]string
+}
+
+func cliLayouts() []cliLayout {
+	var out []cliLayout
+	out = append(out, cliLayout{"svc-and-svc_common", "idl/svc/api/service.thrift", map[string]string{
+		"idl/svc/api/service.thrift":  "include \"../shared.thrift\"\ninclude \"../../svc_common/types.thrift\"\nstruct Req { 1: optional shared.S s; 2: optional types.T t }\nservice Api { void f(1: Req r) }\n",
+		"idl/svc/shared.thrift":       "struct S { 1: optional i32 v }\n",
+		"idl/svc_common/types.thrift": "struct T { 1: optional string v }\n"}})
+	for _, pair := range [][2]string{{"api", "api_v2"}, {"api_v2", "api"}, {"x", "xy"}, {"a.b", "a"}} {
+		out = append(out, cliLayout{"siblings-" + pair[0] + "-" + pair[1], "idl/" + pair[0] + "/sub/a.thrift", map[string]string{
+			"idl/" + pair[0] + "/sub/a.thrift": "include \"../c.thrift\"\ninclude \"../../" + pair[1] + "/b.thrift\"\nstruct A { 1: optional b.B b; 2: optional c.C c }\nservice SA extends b.SB { void a() }\n",
+			"idl/" + pair[0] + "/c.thrift":     "struct C { 1: optional i32 v }\n",
+			"idl/" + pair[1] + "/b.thrift":     "struct B { 1: optional i32 v }\nservice SB { void b() }\n"}})
+	}
+	out = append(out, cliLayout{"three-includes-three-depths", "idl/p/q/a.thrift", map[string]string{
+		"idl/p/q/a.thrift": "include \"./b.thrift\"\ninclude \"../c.thrift\"\ninclude \"../../pp/d.thrift\"\nstruct A { 1: optional b.B b; 2: optional c.C c; 3: optional d.D d }\n",
+		"idl/p/q/b.thrift": "struct B { 1: optional i32 v }\n", "idl/p/c.thrift": "struct C { 1: optional i32 v }\n", "idl/pp/d.thrift": "struct D { 1: optional i32 v }\n"}})
+	return out
+}
+
+func cliFamily(w *ev.W, scratch string) int {
+	bin := w.Args["thriftrw"]
+	if bin == "" {
+		w.Note("CLI family skipped: no thriftrw binary")
+		return 0
+	}
+	n := 0
+	for li, lay := range cliLayouts() {
+		for oi, extra := range [][]string{nil, {"--no-recurse"}} {
+			if (li*2+oi)%w.Of != w.Shard {
+				continue
+			}
+			if w.Expired() {
+				w.Cap("time budget reached inside the CLI family")
+				return n
+			}
+			n++
+			w.Eval(1)
+			w.Nontrivial(1)
+			dir := filepath.Join(w.WorkDir, fmt.Sprintf("cli-%d-%d", li, oi))
+			os.RemoveAll(dir)
+			for p, text := range lay.files {
+				full := filepath.Join(dir, "src", p)
+				os.MkdirAll(filepath.Dir(full), 0o755)
+				os.WriteFile(full, []byte(text), 0o644)
+			}
+			distinct := map[string][]int{}
+			ex := &choice.Explorer{Bound: 1}
+			ex.Body = func(c *choice.Ctx) {
+				outDir := filepath.Join(dir, "out")
+				os.RemoveAll(outDir)
+				trace := filepath.Join(dir, "trace")
+				os.Remove(trace)
+				var pf []string
+				for _, x := range c.Prefix() {
+					pf = append(pf, fmt.Sprint(x))
+				}
+				args := append([]string{"--out", outDir, "--pkg-prefix", "x/y", "--no-version-check"}, extra...)
+				args = append(args, filepath.Join(dir, "src", lay.root))
+				cmd := exec.Command(bin, args...)
+				cmd.Env = append(os.Environ(), "VERIF_VMAP_TRACE="+trace, "VERIF_VMAP_PREFIX="+strings.Join(pf, ","), "GOMAXPROCS=1")
+				cmd.SysProcAttr = &syscall.SysProcAttr{Pdeathsig: syscall.SIGKILL}
+				ob, err := cmd.CombinedOutput()
+				tb, _ := os.ReadFile(trace)
+				for _, l := range strings.Split(string(tb), "\n") {
+					var k int
+					var site string
+					if strings.HasPrefix(l, "DIVERGED") {
+						panic(choice.ErrReplay{Msg: "the command diverged from the recorded prefix: " + l})
+					}
+					if _, e := fmt.Sscanf(l, "%d %s", &k, &site); e == nil {
+						c.Deviate(k, site)
+					}
+				}
+				res := "OK"
+				if err != nil {
+					msg := strings.ReplaceAll(string(ob), dir, "<dir>")
+					if len(msg) > 200 {
+						msg = msg[:200]
+					}
+					res = "FAILED " + strings.TrimSpace(msg)
+				}
+				var lines []string
+				filepath.Walk(outDir, func(path string, info os.FileInfo, err error) error {
+					if err == nil && !info.IsDir() {
+						b, _ := os.ReadFile(path)
+						h := sha256.Sum256(b)
+						rel, _ := filepath.Rel(outDir, path)
+						lines = append(lines, rel+" "+hex.EncodeToString(h[:8]))
+					}
+					return nil
+				})
+				sort.Strings(lines)
+				res += "\n" + strings.Join(lines, "\n")
+				if _, ok := distinct[res]; !ok {
+					distinct[res] = c.Vector()
+				}
+			}
+			ex.Stop = w.Expired
+			ex.Run()
+			w.R.States += ex.Stats.States
+			w.R.Transitions += ex.Stats.Transitions
+			w.R.Traces += ex.Stats.Executions
+			w.Count("cli_processes", ex.Stats.Executions)
+			if ex.Stats.MaxDepth == 0 {
+				w.Note("HARNESS: the CLI run of " + lay.name + " met no order choice (the binary was not built with the rewrite?)")
+				w.Cap("CLI family met no choice point")
+			}
+			if len(distinct) > 1 {
+				var descr []string
+				for r, v := range distinct {
+					descr = append(descr, fmt.Sprintf("[%.120s under choices %v]", strings.ReplaceAll(r, "\n", " "), v))
+				}
+				sort.Strings(descr)
+				w.Violation("cli-nondeterministic:"+lay.name, fmt.Sprintf("thriftrw %v on layout %s (no --thrift-root): %d different results depending on map iteration order: %s", extra, lay.name, len(distinct), strings.Join(descr, " ")), map[string]interface{}{"layout": lay.name, "files": lay.files, "args": extra})
+			} else {
+				for r := range distinct {
+					w.Outcome("cli:" + strings.SplitN(r, "\n", 2)[0][:2])
+				}
+			}
+			os.RemoveAll(dir)
+		}
+	}
+	return n
 }
